@@ -168,10 +168,15 @@ def exec_producer_path(case):
 
     async def main():
         producer = AIOKafkaProducer(bootstrap_servers="127.0.0.1:1")      # never started: no I/O
-        parts = [(0, q, -1 if q in unavailable else 0, [0], [0] if q not in unavailable else []) for q in range(n)]
-        producer._metadata.update_metadata(MetadataResponse_v0([(0, "127.0.0.1", 9092)], [(0, "t", parts)]))
-        if producer._metadata.partitions_for_topic("t") != set(range(n)) or \
-                producer._metadata.available_partitions_for_topic("t") != avail:
+        # brokers list partitions in any order and lead them from any node id (0 included)
+        rs = random.Random(case["rng_seed"])
+        nodes = [0, 1, 2][:1 + case["rng_seed"] % 3]
+        parts = [(0, q, -1 if q in unavailable else nodes[q % len(nodes)], [0], [0] if q not in unavailable else [])
+                 for q in range(n)]
+        if case.get("shuffle", True):
+            rs.shuffle(parts)
+        producer._metadata.update_metadata(MetadataResponse_v0([(i, "127.0.0.1", 9092 + i) for i in nodes], [(0, "t", parts)]))
+        if set(producer._metadata.partitions_for_topic("t")) != set(range(n)):
             raise RuntimeError("harness: metadata snapshot not as constructed")
         random.seed(case["rng_seed"])
         for key in case["keys"]:
